@@ -15,6 +15,7 @@ import Apko.Proofs.Lemmas.FSPosixDemo
 import Apko.Proofs.Lemmas.FSPosixSim
 import Apko.Proofs.Lemmas.FSPosixLF
 import Apko.Proofs.Lemmas.FSDisk
+import Apko.Proofs.Lemmas.FSShare
 import Apko.Generated.FS
 /-! C17 — the virtual file systems behave like a file system (theorems over `Model/FS.lean`) -/
 namespace Apko.C17
@@ -385,6 +386,36 @@ theorem hardlinks_share (c : Cfg) (fs : FS) (o n : Text)
               by_cases hpt : pi = t
               · subst hpt; simp [hpl, lookup_setChild]
               · simp [hpt, hpl, lookup_setChild]
+
+/-- **hardlinks_share_content** (reference file system, Impl and Spec alike): for two names of one plain file —
+each given as "its parent directory resolves and holds the inode under the base name", which is what a successful
+`Link` establishes for the new name (`hardlinks_share`) — `WriteFile` through one name succeeds, `ReadFile`
+through the other returns exactly the bytes written and `Stat` through it the new size. -/
+theorem hardlinks_share_content (c : Cfg) (fs : FS) (hi : Inv fs) (p q : Text) (pp pq : Pos) (i : Ino)
+    (data : Text) (perm : Nat)
+    (hp : resolveFrom c fs [0] (dir p) = .ok pp) (hpd : (fs.node pp.ino).dir = true)
+    (hpl : fs.lookup pp.ino (base p) = some i)
+    (hq : resolveFrom c fs [0] (dir q) = .ok pq) (hqd : (fs.node pq.ino).dir = true)
+    (hql : fs.lookup pq.ino (base q) = some i)
+    (hnd : (fs.node i).dir = false) (hns : (fs.node i).isSymlink = false) (hte : (fs.node i).te = none) :
+    (step c fs (.writeFile p data perm)).2 = .ok .unit ∧
+    (step c (step c fs (.writeFile p data perm)).1 (.readFile q)).2 = .ok (.bytes data false) ∧
+    (getNode c fs q = .ok i →
+      ∃ s, (step c (step c fs (.writeFile p data perm)).1 (.stat q)).2 = .ok (.stat s) ∧ s.size = data.length) := by
+  have hlive : i < fs.nodes.length := lookup_live hi hpl
+  obtain ⟨h1, h2⟩ := write_read_shared c fs p q pp pq i data perm hlive hp hpd hpl hq hqd hql hnd hns hte
+  exact ⟨h1, h2, fun hg => write_stat_shared c fs p q pp i data perm hlive hp hpd hpl hg hnd hns hte⟩
+
+/-- the hypotheses hold in the state after `WriteFile("a/f","old")`, `Link("a/f","h1")`: both names are the inode 2
+(under the root and under `a`), a plain file; and writing "new!" through `h1` is read through `a/f` -/
+example :
+    let c := Cfg.impl .memfs
+    let fs := (run c FS.empty [.mkdir "a".toList 0o755, .writeFile "a/f".toList "old".toList 0o644, .link "a/f".toList "h1".toList]).1
+    getNode c fs (dir "h1".toList) = .ok 0 ∧ fs.lookup 0 (base "h1".toList) = some 2 ∧
+    getNode c fs (dir "a/f".toList) = .ok 1 ∧ fs.lookup 1 (base "a/f".toList) = some 2 ∧
+    (fs.node 2).dir = false ∧ (fs.node 2).isSymlink = false ∧ (fs.node 2).te = none ∧
+    (step c (step c fs (.writeFile "h1".toList "new!".toList 0o600)).1 (.readFile "a/f".toList)).2 = .ok (.bytes "new!".toList false) := by
+  decide +kernel
 
 /-! ### DirFS: hard links share content on disk (round 4)
 
